@@ -1,6 +1,7 @@
 package main
 
 import (
+	"sort"
 	"fmt"
 	"strings"
 
@@ -353,28 +354,82 @@ func checkMapperAccepts(r *Run) {
 		"AcceptAllValidFeedbackMapper": {"%tmconsensus.HandleProposedHeaderAccepted": true, "%tmconsensus.HandleProposedHeaderAlreadyStored": true, "%tmconsensus.HandleVoteProofsAccepted": true, "%tmconsensus.HandleVoteProofsNoNewSignatures": true, "%tmconsensus.HandleVoteProofsFutureVerified": true},
 		"DropDuplicateFeedbackMapper":  {"%tmconsensus.HandleProposedHeaderAccepted": true, "%tmconsensus.HandleVoteProofsAccepted": true, "%tmconsensus.HandleVoteProofsFutureVerified": true},
 	}
+	seenFn := map[*ssa.Function]bool{}
+	for _, ms := range mapperSwitches(w) {
+		allow, ok := allowed[ms.Mapper]
+		if !ok || seenFn[ms.Fn] {
+			continue
+		}
+		seenFn[ms.Fn] = true
+		fn := ms.Fn
+		cases := w.A(fn).SwitchCases("$_", 0)
+		for k, ci := range cases {
+			if !ci.Returns["%gexchange.FeedbackAccepted"] {
+				continue
+			}
+			con := ms.Mapper + "." + ms.Method + "[" + k + "]"
+			r.Check(allow[k], "C20.5", con, w.Pos(fn.Pos()), "this result is mapped to FeedbackAccepted (relay) but is not an acceptance result")
+		}
+	}
+	r.Expect("C20.5", 6, "accept cases in the four mapper switches")
+}
+
+// mapperSwitch: the function holding the result->feedback switch of one
+// Handle* method of a shipped feedback mapper. Found by role: the method of a
+// *FeedbackMapper type that returns gexchange.Feedback either switches on the
+// wrapped handler's result itself, or hands that result to a helper that does
+// (method or plain function, whatever its name).
+type mapperSwitch struct {
+	Mapper string // receiver type name
+	Method string // HandleProposedHeader / HandlePrevoteProofs / HandlePrecommitProofs
+	Fn     *ssa.Function
+}
+
+func mapperSwitches(w *World) []mapperSwitch {
+	var out []mapperSwitch
 	for _, fn := range w.FuncsInPkg("tm/tmconsensus") {
 		if fn.Signature.Recv() == nil || fn.Signature.Results().Len() != 1 || TypeName(fn.Signature.Results().At(0).Type()) != "gexchange.Feedback" {
 			continue
 		}
 		recv := typeBaseName(fn.Signature.Recv().Type())
-		allow, ok := allowed[recv]
-		if !ok {
+		if !strings.HasSuffix(recv, "FeedbackMapper") || !strings.HasPrefix(fn.Name(), "Handle") {
 			continue
 		}
-		a := w.A(fn)
-		// subject: a local of type HandleProposedHeaderResult / HandleVoteProofsResult
-		cases := a.SwitchCases("$_", 0)
-		if len(cases) == 0 {
-			continue
-		}
-		for k, ci := range cases {
-			if !ci.Returns["%gexchange.FeedbackAccepted"] {
-				continue
+		target := fn
+		if len(w.A(fn).SwitchCases("$_", 0)) == 0 {
+			target = nil
+			for _, b := range fn.Blocks {
+				for _, in := range b.Instrs {
+					c := callCommon(in)
+					if c == nil || c.StaticCallee() == nil || c.StaticCallee().Blocks == nil {
+						continue
+					}
+					callee := c.StaticCallee()
+					if callee.Signature.Results().Len() != 1 || TypeName(callee.Signature.Results().At(0).Type()) != "gexchange.Feedback" {
+						continue
+					}
+					takesResult := false
+					for _, arg := range c.Args {
+						tn := TypeName(arg.Type())
+						if tn == "tmconsensus.HandleVoteProofsResult" || tn == "tmconsensus.HandleProposedHeaderResult" {
+							takesResult = true
+						}
+					}
+					if takesResult && len(w.A(callee).SwitchCases("$_", 0)) > 0 {
+						target = callee
+					}
+				}
 			}
-			con := FuncName(fn) + "[" + k + "]"
-			r.Check(allow[k], "C20.5", con, w.Pos(fn.Pos()), "this result is mapped to FeedbackAccepted (relay) but is not an acceptance result")
+		}
+		if target != nil {
+			out = append(out, mapperSwitch{recv, fn.Name(), target})
 		}
 	}
-	r.Expect("C20.5", 6, "accept cases in the four mapper switches")
+	sort.Slice(out, func(i, j int) bool {
+		if out[i].Mapper != out[j].Mapper {
+			return out[i].Mapper < out[j].Mapper
+		}
+		return out[i].Method < out[j].Method
+	})
+	return out
 }
